@@ -24,8 +24,7 @@ theorem C20_frame_rows :
 
 /-- **Frame.**  Every function of the modules in scope — public functions, methods, nested
 functions, table lambdas, `functools.partial` bindings — has an *empty* write set, except the
-ones listed by name in `frameExceptions` (the mutating loaders of C17 and the in-place
-conversions of dump_load.py). -/
+ones listed by name in `frameExceptions`. -/
 theorem C20_frame : ∀ f ∈ inScope, f ∉ frameExceptions → writeRoots f = some [] := by
   intro f hf hne
   simp only [inScope, List.mem_map] at hf
@@ -45,11 +44,15 @@ theorem C20_frame : ∀ f ∈ inScope, f ∉ frameExceptions → writeRoots f = 
     · simp [h]
     · exact absurd h hne
 
-/-- The exception list is exact: each entry is in scope and does have a non-empty write set. -/
-theorem C20_frame_exceptions_exact :
-    (frameExceptions.all fun f =>
-      match (scopeRows.find? (fun p => p.1 == f)).map (·.2) with | some (_ :: _) => true | _ => false) = true := by
-  decide +kernel
+/-- The exception list is empty: since the fix commits b501fa0, cd8d9e4, 2481879 no function in
+scope may write an argument.  (Until then it named `to_complex`, `load_network`, everything
+forwarding to them, and the in-place conversions of dump_load.py.) -/
+theorem C20_frame_exceptions_exact : frameExceptions = [] := rfl
+
+/-- …so the frame is unconditional. -/
+theorem C20_frame_all : ∀ f ∈ inScope, writeRoots f = some [] := by
+  intro f hf
+  exact C20_frame f hf (by simp [frameExceptions])
 
 /-- **Defaults.**  No parameter with a mutable default value (`keep=[]`, `c_values={}`,
 `l_values={}`, `w=[0]`, `w=np.array([0])`, `potential_nodes=[]`, …) is in the write set of
@@ -140,19 +143,23 @@ theorem Load.set_sound (h : List J) (i : Nat) (v v' : J) (ws : List Nat) (hv : h
     · exact absurd hw hj
   · rw [List.getElem?_set_ne hji]
 
-theorem Load.loader_writeRoots :
-    writeRoots "Network.loaders.to_complex" = some ["z"] ∧
-    writeRoots "Network.loaders.load_network" = some ["network_dict"] ∧
-    writeRoots "dump_load.dictify_complex_values" = some ["data"] ∧
-    writeRoots "dump_load.dictify_all_complex_values" = some ["data"] ∧
-    writeRoots "dump_load.undictify_complex_values" = some ["data"] ∧
-    writeRoots "dump_load.undictify_all_complex_values" = some ["data"] := by
-  decide +kernel
+/-- every loader operation of the machine leaves the value of its argument cell as it was -/
+theorem Load.loadSem_post (T : Trig) (fn : String) (flag : Bool) (v v' : J) (out : LoadOut)
+    (h : loadSem T fn flag v = some (v', out)) : v' = v := by
+  unfold loadSem at h
+  repeat' split at h
+  all_goals first
+    | (simp only [Option.some.injEq, Prod.mk.injEq] at h; obtain ⟨rfl, -⟩ := h
+       first
+        | exact C17_toComplex_pure T v flag
+        | exact C17_pure.1 T v
+        | exact (C17_circuit_pure v).1
+        | exact (C17_circuit_pure v).2
+        | rfl)
+    | cases h
 
 /-- The loader model of C17, run as a machine over a pool of description objects, writes
-only what the generated summary allows: `generate_component` / `undictify_circuit` write
-nothing (they work on a copy); `to_complex`, `load_network` and the in-place conversions
-write only the cell bound to the parameter the summary names. -/
+nothing — whatever the summary says it may write (it says: nothing). -/
 theorem C20_loaders_sound (T : Trig) : (loadMachine T).Sound := by
   intro op h
   simp only [loadMachine, loadStep]
@@ -162,33 +169,21 @@ theorem C20_loaders_sound (T : Trig) : (loadMachine T).Sound := by
     · rename_i v fn q hv hq
       by_cases hpq : p = q
       · simp only [hpq, if_true]
-        have hq' := List.find?_some hq
-        have hmem := List.mem_of_find?_eq_some hq
-        simp only [beq_iff_eq] at hq'
         cases hsem : loadSem T op.fn op.flag v with
         | none => simp
         | some r =>
           obtain ⟨v', out⟩ := r
           simp only
-          apply set_sound h i v v' op.writeCells hv
-          -- which operation is it?
-          simp only [loadParams, List.mem_cons, Prod.mk.injEq, List.not_mem_nil, or_false] at hmem
-          have hwc : ∀ ws, writeRoots op.fn = some ws → q ∈ ws → i ∈ op.writeCells := by
-            intro ws h1 h2
-            simp [Op.writeCells, h1, hargs, hpq, h2]
-          obtain ⟨w1, w2, w3, w4, w5, w6⟩ := loader_writeRoots
-          rcases hmem with h0 | h0 | h0 | h0 | h0 | h0 | h0 | h0 <;> obtain ⟨hf, hqq⟩ := h0 <;> rw [hq'] at hf <;>
-            rw [hf] at hsem <;> simp [loadSem] at hsem <;> obtain ⟨rfl, -⟩ := hsem
-          · exact Or.inr (hwc _ (hf ▸ w1) (by simp [← hqq]))
-          · exact Or.inr (hwc _ (hf ▸ w2) (by simp [← hqq]))
-          · exact Or.inl (C17_circuit_pure v).1
-          · exact Or.inl (C17_circuit_pure v).2
-          · exact Or.inr (hwc _ (hf ▸ w3) (by simp [← hqq]))
-          · exact Or.inr (hwc _ (hf ▸ w4) (by simp [← hqq]))
-          · exact Or.inr (hwc _ (hf ▸ w5) (by simp [← hqq]))
-          · exact Or.inr (hwc _ (hf ▸ w6) (by simp [← hqq]))
+          exact set_sound h i v v' op.writeCells hv (Or.inl (loadSem_post T _ _ _ _ _ hsem))
       · simp [hpq]
     · simp
   · simp
+
+/-- …hence on the loader machine itself: after *any* history of loader operations the pool of
+descriptions is unchanged and each output is the output of the isolated call. -/
+theorem C20_loader_histories (T : Trig) (ops : List Op) (h : List J) (hp : ∀ op ∈ ops, op.inFrame) :
+    ((loadMachine T).runAll ops h).2 = h ∧
+    ((loadMachine T).runAll ops h).1 = ops.map (fun op => ((loadMachine T).run op h).1) :=
+  C20_pure_history (loadMachine T) (C20_loaders_sound T) ops h hp
 
 end CC
